@@ -7,9 +7,9 @@ export GOFLAGS=-mod=mod GOPROXY=off GOSUMDB=off GOTOOLCHAIN=local CGO_ENABLED=${
 ID=${1:?property id}
 MODE=${2:-quick}
 cmp -s /repo/go.sum harness/go.sum || cp /repo/go.sum harness/go.sum
-# the checker binary is rebuilt on every call; it links the packages of /repo's
+# the checker binary is rebuilt on every call with the hook guard (-tags verif) enabled; it links the packages of /repo's
 # working tree (replace directive), so library-level checks always see current sources
-(cd harness && go build -o bin/vcheck ./cmd/vcheck) || { echo "INFRA build failed" >&2; exit 2; }
+(cd harness && go build -tags verif -o bin/vcheck ./cmd/vcheck) || { echo "INFRA build failed" >&2; exit 2; }
 if [ "$MODE" = "--replay" ]; then
   exec harness/bin/vcheck -p "$ID" -replay "${3:?replay file}"
 fi
